@@ -8,10 +8,13 @@ package checks
 //     Close must return — whether the failures go on or stop right after SetReadOnly (then the retry succeeds and
 //     reports nil to the error goroutine), with and without back-off, and with Close started while SetReadOnly is
 //     between its two selects.  C09's oracle: every call returns under the watchdog.
-//  F. (opt-in, VERIF_C09_LOCKLOST=1) the interleaving `write_lock_lost` of the model on the real code: a table
-//     compaction reports a corruption while SetReadOnly is between its two selects (yield point s.readonly.locked),
-//     then Close runs to completion, then SetReadOnly resumes.  Oracle: once Close has returned the write-lock
-//     token stays in writeLockC (Close keeps it for good); the verif export VerifLocks reads it.
+//  F. the interleaving `write_lock_lost` of the model on the real code (defect repaired by 832d000; kept as a
+//     regression detector): a table compaction reports a corruption while SetReadOnly is between its two selects
+//     (yield point s.readonly.locked), then Close starts (before 832d000 it ran to completion at this point; now it
+//     waits for SetReadOnly's token), then SetReadOnly resumes.  Oracle: SetReadOnly and Close return, and once
+//     Close has returned the write-lock token stays in writeLockC (Close keeps it for good); the verif export
+//     VerifLocks reads it.  With VERIF_C09_CRCLOSED=1 it is also a violation when the CompactRange whose
+//     compaction died of the corruption returns ErrClosed although the DB is open (finding, not a C09 clause).
 
 import (
 	"bytes"
@@ -154,13 +157,13 @@ func (g *gateStor) Open(fd storage.FileDesc) (storage.Reader, error) {
 	return g.Stor.Open(fd)
 }
 
-func runC09LockLost() (sig, msg string, nontrivial bool) {
+func runC09LockLost() (sig, msg string, nontrivial bool, crClosedOnOpen bool) {
 	st := stor.New()
 	st.KeepOps(false)
 	o := &opt.Options{WriteBuffer: 4 << 10, DisableCompactionBackoff: true, CompactionTableSize: 8 << 10, DisableBlockCache: true}
 	db, err := leveldb.Open(st, o)
 	if err != nil {
-		return "open:error", err.Error(), false
+		return "open:error", err.Error(), false, false
 	}
 	val := func(i int) []byte { return bytes.Repeat([]byte{byte('a' + i%26)}, 120) }
 	for i := 0; i < 300; i++ {
@@ -184,7 +187,7 @@ func runC09LockLost() (sig, msg string, nontrivial bool) {
 		n++
 	}
 	if n == 0 {
-		return "", "scenario not reached: no table to damage", false
+		return "", "scenario not reached: no table to damage", false, false
 	}
 	var gateOn int32
 	atTable := make(chan struct{})
@@ -202,7 +205,7 @@ func runC09LockLost() (sig, msg string, nontrivial bool) {
 	}
 	db, err = leveldb.Open(gs, o)
 	if err != nil {
-		return "", "scenario not reached: Open noticed the damage: " + err.Error(), false
+		return "", "scenario not reached: Open noticed the damage: " + err.Error(), false, false
 	}
 	// fresh entries over the whole key range: CompactRange flushes them and compacts the new level-0 table with
 	// the damaged tables below it
@@ -217,13 +220,14 @@ func runC09LockLost() (sig, msg string, nontrivial bool) {
 	case err := <-crDone:
 		// no table was opened (nothing to compact)
 		db.Close()
-		return "", fmt.Sprintf("scenario not reached: CompactRange returned %v without opening a table", err), false
+		return "", fmt.Sprintf("scenario not reached: CompactRange returned %v without opening a table", err), false, false
 	case <-time.After(20 * time.Second):
 		close(srLocked)
-		return "locklost:setup:hang", "the range compaction did not reach a table\n" + dumpBlocked(), false
+		return "locklost:setup:hang", "the range compaction did not reach a table\n" + dumpBlocked(), false, false
 	}
 	var crErr error
-	closeRet, persistent := false, false
+	persistent := false
+	closeDone := make(chan struct{})
 	var once sync.Once
 	leveldb.VerifYield = func(p string) {
 		if p != "s.readonly.locked" {
@@ -244,25 +248,36 @@ func runC09LockLost() (sig, msg string, nontrivial bool) {
 				return
 			}
 			persistent = true
-			// the error goroutine is in its persistent state; Close runs to completion
-			_, closeRet = watch(20*time.Second, db.Close)
+			// the error goroutine is in its persistent state; Close runs until it has returned (before 832d000) or
+			// waits for our token
+			go func() { db.Close(); close(closeDone) }()
+			select {
+			case <-closeDone:
+			case <-time.After(100 * time.Millisecond):
+			}
 		})
 	}
 	serr, ok := watch(60*time.Second, db.SetReadOnly)
 	leveldb.VerifYield = nil
 	atomic.StoreInt32(&gateOn, 0)
 	if !ok {
-		return "locklost:setReadOnly:hang", "SetReadOnly did not return\n" + dumpBlocked(), false
+		return "locklost:setReadOnly:hang", "SetReadOnly (a corruption was reported between its two selects, then Close started) did not return\n" + dumpBlocked(), persistent, false
 	}
-	if !persistent || !closeRet {
+	crClosedOnOpen = persistent && crErr == leveldb.ErrClosed
+	if !persistent {
 		go db.Close()
-		return "", fmt.Sprintf("scenario not reached: CompactRange=%v persistent=%v Close returned=%v SetReadOnly=%v", crErr, persistent, closeRet, serr), false
+		return "", fmt.Sprintf("scenario not reached: CompactRange=%v persistent=%v SetReadOnly=%v", crErr, persistent, serr), false, false
+	}
+	select {
+	case <-closeDone:
+	case <-time.After(30 * time.Second):
+		return "locklost:close:hang", fmt.Sprintf("Close started while SetReadOnly was between its two selects (persistent error state; SetReadOnly returned %v) did not return\n%s", serr, dumpBlocked()), true, crClosedOnOpen
 	}
 	ls := leveldb.VerifLocks(db)
 	if !ls.WriteLock {
-		return "setReadOnly:corruption-then-close:write-lock-lost", fmt.Sprintf("a table compaction reported a corruption (%v) while SetReadOnly was between its two selects; Close then ran to completion and SetReadOnly returned %v; afterwards writeLockC is EMPTY although Close acquired the write lock for good: the error goroutine (persistent state, reading the compWriteLocking flag SetReadOnly had set) took SetReadOnly's token on closeC, Close acquired the lock, and SetReadOnly's closeC arm took Close's token out (model: C09.write_lock_lost)", crErr, serr), true
+		return "setReadOnly:corruption-then-close:write-lock-lost", fmt.Sprintf("a table compaction reported a corruption (%v) while SetReadOnly was between its two selects; Close then ran to completion and SetReadOnly returned %v; afterwards writeLockC is EMPTY although Close acquired the write lock for good: the error goroutine (persistent state, reading the compWriteLocking flag SetReadOnly had set) took SetReadOnly's token on closeC, Close acquired the lock, and SetReadOnly's closeC arm took Close's token out (model: C09.write_lock_lost)", crErr, serr), true, crClosedOnOpen
 	}
-	return "", "", true
+	return "", "", true, crClosedOnOpen
 }
 
 func runC09ReadOnly(c *Ctx) {
@@ -286,12 +301,19 @@ func runC09ReadOnly(c *Ctx) {
 			}
 		}
 	}
-	if os.Getenv("VERIF_C09_LOCKLOST") != "" && !c.Hung {
-		sig, msg, nt := runC09LockLost()
-		c.Res.Eval("lock-lost", nt)
+	for i := 0; i < c.Scale(3, 12) && !c.Hung; i++ {
+		sig, msg, nt, crClosed := runC09LockLost()
+		c.Res.Eval(fmt.Sprintf("lock-lost/%d", i), nt)
 		c.Res.Count("lock-lost", fmt.Sprintf("reached=%v fired=%v %s", nt, sig != "", map[bool]string{true: "", false: msg}[sig != ""]))
+		c.Res.Count("lock-lost", fmt.Sprintf("CompactRange-returned-ErrClosed-on-open-db=%v", crClosed))
 		if sig != "" {
-			c.Res.Violate(sig, msg, map[string]interface{}{"scenario": "corruption while SetReadOnly is at the s.readonly.locked yield point, then Close"})
+			c.Res.Violate(sig, msg, map[string]interface{}{"scenario": "corruption while SetReadOnly is at the s.readonly.locked yield point, then Close", "attempt": i})
+			if len(sig) > 5 && sig[len(sig)-5:] == ":hang" {
+				c.Hung = true
+			}
+		}
+		if crClosed && os.Getenv("VERIF_C09_CRCLOSED") != "" {
+			c.Res.Violate("compactRange:errClosed-on-open-db:compaction-died-of-corruption", "CompactRange returned leveldb.ErrClosed although the DB was open (no Close had been called): its table compaction hit a corruption, tCompaction left through compactionExitTransact and its deferred x.ack(ErrClosed) won the race against the compErrC arm of compTriggerRange; the corruption error was available (a Put issued right afterwards returned it)", map[string]interface{}{"attempt": i})
 		}
 	}
 }
